@@ -661,7 +661,22 @@ func (r *Replica) Restore(ctx context.Context, opt RestoreOptions) (err error) {
 					return fmt.Errorf("cannot resume follow mode: saved TXID %s is behind the earliest snapshot (min TXID %s); replica history has been pruned -- delete %s and %s-txid to re-restore", txid, latestSnapshot.MinTXID, opt.OutputPath, opt.OutputPath)
 				}
 				if txid > latestSnapshot.MaxTXID {
-					return fmt.Errorf("cannot resume follow mode: saved TXID %s is ahead of latest snapshot (max TXID %s); delete %s and %s-txid to re-restore", txid, latestSnapshot.MaxTXID, opt.OutputPath, opt.OutputPath)
+					// A follower is normally ahead of the newest snapshot. Only a saved
+					// TXID beyond everything the replica holds, at any level, means that
+					// the replica's history is not the one this database was restored from.
+					var replicaMax ltx.TXID
+					for level := 0; level <= SnapshotLevel; level++ {
+						info, infoErr := r.MaxLTXFileInfo(ctx, level)
+						if infoErr != nil {
+							return fmt.Errorf("cannot validate saved TXID for crash recovery: %w", infoErr)
+						}
+						if info.MaxTXID > replicaMax {
+							replicaMax = info.MaxTXID
+						}
+					}
+					if txid > replicaMax {
+						return fmt.Errorf("cannot resume follow mode: saved TXID %s is ahead of the replica (max TXID %s); delete %s and %s-txid to re-restore", txid, replicaMax, opt.OutputPath, opt.OutputPath)
+					}
 				}
 			}
 
